@@ -97,7 +97,8 @@ def match_known(known, prop, v):
 
 def build_run(run, bdir):
     return B.build(bdir, san=run.get("san", "asan"), hooks=run.get("hooks", False), nosse=run.get("nosse", False),
-                   harness_srcs=run["srcs"], harness_name="engine", harness_nosan=run.get("nosan", ()))
+                   harness_srcs=run["srcs"], harness_name="engine", harness_nosan=run.get("nosan", ()),
+                   **({"harness_libs": tuple(run["link"])} if run.get("link") else {}))
 
 
 def engine_cmd(exe, run, tier, out, extra=()):
@@ -129,7 +130,7 @@ def run_check(prop, tier):
     foreign = 0
     for ri, run in enumerate(runs):
         name = run.get("name", run["plan"])
-        flav = (run.get("san", "asan"), run.get("hooks", False), run.get("nosse", False), tuple(run["srcs"]))
+        flav = (run.get("san", "asan"), run.get("hooks", False), run.get("nosse", False), tuple(run["srcs"]), tuple(run.get("link", ())))
         if flav not in built:
             bdir = os.path.join(BUILDROOT, "%s.%s" % (prop, tier), "f%d" % len(built))
             built[flav] = (build_run(run, bdir), bdir)
@@ -177,6 +178,7 @@ def run_check(prop, tier):
             seen.setdefault((v["key"], v["site"]), v)
         nviol += len(seen)
         replayed = 0
+        history_hv = None
         by_site_reported = {}
         for (key, site), v in seen.items():
             k = match_known(known, prop, v)
@@ -214,6 +216,33 @@ def run_check(prop, tier):
                         unknown.append((x, rp2))
                         nviol += 1
                 continue
+            if not same and run["srcs"][0] != "harness/engine_t.c":
+                # The case alone, in a fresh process, satisfies the oracle: what the sweep saw depended on the cases the same
+                # executor had run before it (state the library keeps between calls). Re-run the enumeration in ONE process, in
+                # enumeration order, stopping at the first violation: that run is deterministic and is the replay.
+                if history_hv is None:          # one single-process enumeration per run is enough
+                    hp_out = os.path.join(bdir, "history.txt")
+                    hcmd = engine_cmd(exe, run, tier, hp_out, ["--workers", "1", "--first", "--deadline", "900", "--case-timeout", "300"])
+                    subprocess.run(hcmd, env=env, stdout=subprocess.PIPE, stderr=subprocess.STDOUT, text=True)
+                    hres = parse_out(hp_out)
+                    history_hv = [x for x in hres["V"] if not (run.get("only_sites") and not re.search(run["only_sites"], x["site"])) and match_known(known, prop, x) is None]
+                hv = history_hv
+                if hv:
+                    x = hv[0]
+                    os.unlink(rp)
+                    h2 = hashlib.sha1(("history|" + x["key"] + "|" + x["site"]).encode()).hexdigest()[:16]
+                    rp2 = os.path.join(rdir, h2 + ".json")
+                    json.dump({"property": prop, "tier": tier, "run": name, "key": x["key"], "site": x["site"], "detail": x["detail"], "mode": "history",
+                               "first_seen_as": {"key": key, "site": site},
+                               "note": "the case passes when executed alone in a fresh process; it fails when the enumeration is executed in order in one process, i.e. the result depends on earlier calls",
+                               "reproduced_on_replay": True, "replay": "./vcheck replay " + rp2}, open(rp2, "w"), indent=1)
+                    x = dict(x); x["detail"] = "[depends on earlier calls in the same process; replay = single-process enumeration up to this case] " + x["detail"]
+                    if rp2 not in [r for _, r in unknown]:
+                        unknown.append((x, rp2))
+                    else:
+                        nviol -= 1
+                    by_site_reported[site] = 99      # one history replay per site is enough
+                    continue
             if not same:
                 sys.stderr.write("HARNESS ERROR: violation did not reproduce on replay: %s %s\n" % (key, site))
                 raise SystemExit(2)
@@ -256,7 +285,10 @@ def replay(path):
     exe = build_run(run, bdir)
     out = os.path.join(bdir, "replay.txt")
     env = B.env_for(bdir, run.get("san", "asan"))
-    subprocess.run(engine_cmd(exe, run, tier, out, ["--only", j["key"], "--case-timeout", "600"]), env=env)
+    if j.get("mode") == "history":
+        subprocess.run(engine_cmd(exe, run, tier, out, ["--workers", "1", "--first", "--deadline", "900", "--case-timeout", "300"]), env=env)
+    else:
+        subprocess.run(engine_cmd(exe, run, tier, out, ["--only", j["key"], "--case-timeout", "600"]), env=env)
     res = parse_out(out)
     for v in res["V"]:
         log("VIOLATION property=%s replay=%s\n  key=%s\n  %s\n  %s" % (prop, path, v["key"], v["site"], v["detail"]))
